@@ -469,7 +469,7 @@ class C18(F.PropCheck):
             if ended:
                 lastf = flags[-1][1] if flags else 0
                 if 'RESTART' not in kinds or lastf != 0:
-                    what = 'the connection was closed' if last_ev == 'DISC' else 'all %d announced bytes were delivered and the image is not valid' % ann
+                    what = 'the connection was closed' if last_ev == 'DISC' else 'all %d announced bytes were delivered, the image was not marked for boot' % ann
                     v.append('%s but the update is not abandoned (last flag %s, %s)' % (what, {0: 'IDLE', 1: 'START'}.get(lastf, lastf), 'restart' if 'RESTART' in kinds else 'no restart'))
         return v
 
